@@ -141,6 +141,8 @@ class Ctx:
         os.makedirs(run)
         # copy the spec dir and lib so TLC litter stays in scratch
         for d in (specdir, os.path.join(SPECS, "lib")):
+            if not os.path.isdir(d):
+                continue
             for f in os.listdir(d):
                 if f.endswith(".tla"):
                     shutil.copy(os.path.join(d, f), run)
@@ -149,7 +151,8 @@ class Ctx:
         mod = os.path.basename(spec)[:-4]
         with open(os.path.join(run, mod + ".cfg"), "w") as fh:
             fh.write(cfgtext)
-        cmd = ["java", "-XX:+UseParallelGC", "-Xss256m"] + list(javaopts) + ["-cp", JAR, "tlc2.TLC",
+        heap = os.environ.get("VERIF_TLC_HEAP", "6g")     # several TLC processes run side by side
+        cmd = ["java", "-XX:+UseParallelGC", "-Xss256m", "-Xmx" + heap] + list(javaopts) + ["-cp", JAR, "tlc2.TLC",
                "-metadir", os.path.join(run, "md"), "-workers", str(workers),
                "-config", mod + ".cfg"] + list(extra) + [mod + ".tla"]
         if outfile:
@@ -206,7 +209,7 @@ class Ctx:
         cfgtext = self._cfg(os.path.join(SPECS, cfg), subst)
         specdir = os.path.dirname(spec_p)
         h = sha(cfgtext, *[open(os.path.join(d, f), "rb").read()
-                           for d in (specdir, os.path.join(SPECS, "lib"))
+                           for d in (specdir, os.path.join(SPECS, "lib")) if os.path.isdir(d)
                            for f in sorted(os.listdir(d)) if f.endswith(".tla")], *extra)
         base = os.path.join(CACHE, "%s-%s" % (os.path.basename(spec)[:-4], h))
         nd, meta = base + ".ndjson", base + ".meta.json"
